@@ -152,6 +152,8 @@ def run_pipeline_stream(res, rng, cases, label, chunk=150):
             res.count(f'{label}:none-operand')
         if obs[7] is not None:
             res.count(f'{label}:printed-lines-compared', len(obs[7]))
+        if obs[3] is None or obs[1] is None:
+            res.count(f'{label}:skipped: cache/counter attribute not present')
         # structural categories reached (from the implementation's own tables)
         u0, u1 = case['u0'], case['u1']
         before, final = obs[2], obs[5]
